@@ -288,9 +288,7 @@ Record frame_hyps (crit : Cfg) (pf : PF) (rs : list Res) (gts : list Obj) : Prop
   h_crit : wf_cfg crit;
   h_pf : pf_ok pf;
   h_frame : wf_frame rs gts;
-  h_points : forall g, In g gts -> obj_ok crit true g;
-  (* the confidence criterion does not decide whether a ground truth is critical *)
-  h_gt_conf : forall g, In g gts -> kept (gt_side crit) true true g = kept crit true true g
+  h_points : forall g, In g gts -> obj_ok crit true g
 }.
 
 (* what survives the two critical filters *)
@@ -303,7 +301,7 @@ Lemma survivors crit pf rs gts rs' gts' :
   (forall g, In g gts' -> In g gts /\ kept crit true true g = true) /\
   (forall r, In r rs' -> In r rs /\ kept (est_side crit) true false (r_est r) = true).
 Proof.
-  intros [Hc Hpf Hf Hpts Hconf] Hrs Hgts.
+  intros [Hc Hpf Hf Hpts] Hrs Hgts.
   pose proof (filter_results_sublist _ _ _ _ Hrs) as S1.
   pose proof (filter_sublist _ _ _ _ _ Hgts) as S2.
   assert (Hres_ok : forall r, In r rs -> res_ok crit r).
@@ -331,7 +329,7 @@ Proof.
     unfold gt_of in Hgr. destruct (r_gt r) as [g'|] eqn:Eg; [|destruct Hgr]. destruct Hgr as [<-|[]].
     apply filter_In. assert (Hin : In g' gts) by (eapply (wf_gt_in _ _ Hf); eauto). split; [assumption|].
     unfold result_kept in Hk. rewrite Eg in Hk. apply andb_true_iff in Hk. destruct Hk as [_ Hk].
-    rewrite <- Hconf by assumption. exact Hk. }
+    rewrite <- (kept_gt_side crit true g'). exact Hk. }
   split.
   { intros g Hg. apply filter_In in Hg. exact Hg. }
   { intros r Hr. apply filter_In in Hr. destruct Hr as [Hr Hk]. split; [assumption|].
@@ -501,30 +499,4 @@ Theorem num_success_fail crit pf rs gts F :
   (num_success F + num_fail F = List.length (f_results F) + List.length (f_tn F) + List.length (f_fn F))%nat.
 Proof.
   intros Hpf H. destruct (results_partition _ _ _ _ _ Hpf H) as [_ L]. unfold num_success, num_fail. lia.
-Qed.
-
-(* the confidence hypothesis holds whenever no confidence list is configured or the ground truth's
-   score exceeds the threshold of its label (dataset ground truth has score 1.0) *)
-Lemma gt_conf_sufficient crit g :
-  (forall l, c_conf crit = Some l -> forall thr, bound_for crit g l = Some thr -> thr < o_conf g) ->
-  (forall l, c_conf crit = Some l -> targeted crit g = true -> lbl_is_fp (o_label g) = false -> bound_for crit g l <> None) ->
-  kept (gt_side crit) true true g = kept crit true true g.
-Proof.
-  intros H1 H2. unfold kept.
-  assert (Eu : use_unknown_threshold (gt_side crit) true g = false)
-    by (unfold use_unknown_threshold; rewrite andb_false_r; reflexivity).
-  assert (Eu' : use_unknown_threshold crit true g = false)
-    by (unfold use_unknown_threshold; rewrite andb_false_r; reflexivity).
-  rewrite Eu, Eu'. destruct (lbl_is_fp (o_label g)) eqn:Efp; [reflexivity|]. rewrite !orb_false_l.
-  change (targeted (gt_side crit) g) with (targeted crit g).
-  change (ignored (gt_side crit) g) with (ignored crit g).
-  change (uuid_ok (gt_side crit) true g) with (uuid_ok crit true g).
-  change (c_conf (gt_side crit)) with (@None (list Q)). cbn [when].
-  destruct (targeted crit g) eqn:Et; [|reflexivity].
-  assert (Ec : when (c_conf crit) (fun l => holds (bound_for crit g l) (fun thr => Qltb thr (o_conf g))) = true).
-  { destruct (c_conf crit) as [l|] eqn:El; [|reflexivity]. cbn [when].
-    destruct (bound_for crit g l) as [thr|] eqn:Eb.
-    - cbn [holds]. apply Qltb_true. eapply H1; eauto.
-    - exfalso. eapply H2; eauto. }
-  rewrite Ec, andb_true_r. reflexivity.
 Qed.
